@@ -81,7 +81,7 @@ func c16RandDoc(rnd *rand.Rand, fmtName string, blocks int) wpw.Doc {
 	noTbl := wpw.Tbl{Hm: [][]int{}, Vm: [][]int{}, Mp: [][]int{}, Rc: [][]int{}}
 	// a random style sheet: an arbitrary basedOn graph (chains, shared parents, cycles,
 	// undefined parents) satisfying WordDoc!SheetOK
-	odtLvl := 1 + rnd.Intn(4)
+	odtLvl := 1 + rnd.Intn(9)
 	if rnd.Intn(2) == 0 {
 		n := 1 + rnd.Intn(5)
 		decls := []string{"none", "none", "builtin", "nameL", "nameU", "outline"}
@@ -90,7 +90,7 @@ func c16RandDoc(rnd *rand.Rand, fmtName string, blocks int) wpw.Doc {
 		}
 		usedLvl := map[int]bool{}
 		for i := 0; i < n; i++ {
-			st := wpw.Style{Decl: decls[rnd.Intn(len(decls))], Lvl: 1 + rnd.Intn(4)}
+			st := wpw.Style{Decl: decls[rnd.Intn(len(decls))], Lvl: 1 + rnd.Intn(9)}
 			if fmtName == "odt" {
 				st.Lvl = odtLvl
 			}
@@ -117,7 +117,7 @@ func c16RandDoc(rnd *rand.Rand, fmtName string, blocks int) wpw.Doc {
 			if len(d.Sheet) > 0 {
 				how = "outline" // the fixed heading styles are not part of a document with its own sheet
 			}
-			d.Body = append(d.Body, wpw.Block{K: "H", Ch: c16RandChildren(rnd, fmtName, 2, 2), Lvl: 1 + rnd.Intn(6), How: how, Tb: noTbl})
+			d.Body = append(d.Body, wpw.Block{K: "H", Ch: c16RandChildren(rnd, fmtName, 2, 2), Lvl: 1 + rnd.Intn(map[string]int{"docx": 9, "odt": 10}[fmtName]), How: how, Tb: noTbl})
 		case 3: // a run of list items: starts at depth 0, deepens by at most one
 			num := []string{"bullet", "decimal"}[rnd.Intn(2)]
 			lvl := 0
